@@ -384,4 +384,33 @@ def roundTrip (bad : List String) (c : NContent) : Except Err Content := do
   let p ← genMxlpy s
   runProgram p
 
+/-! ### what is declared: by the builder calls of a program, by the components of a model -/
+
+/-- what a builder call declares: kind, name, the model arguments of its function (none for a plain value), and for a
+    reaction the compounds of its stoichiometry with the arguments of computed coefficients -/
+def BVal.argsOf : BVal → Option (List Name)
+  | .num _ => none
+  | .ref r => some r.args
+
+def Call.head : Call → String × Name × Option (List Name) × List (Name × Option (List Name))
+  | .addVariable k v => ("variable", k, v.argsOf, [])
+  | .addParameter k v => ("parameter", k, v.argsOf, [])
+  | .addDerived k r => ("derived", k, some r.args, [])
+  | .addReaction k r st => ("reaction", k, some r.args, st.map fun vc => (vc.1, vc.2.argsOf))
+
+def NVal.argsOf : NVal → Option (List Name)
+  | .plain _ => none
+  | .ia u => some u.args
+
+def NCoef.argsOf : NCoef → Option (List Name)
+  | .num _ => none
+  | .dyn u => some u.args
+
+/-- the same for the components of the model -/
+def heads (c : NContent) : List (String × Name × Option (List Name) × List (Name × Option (List Name))) :=
+  (c.vars.map fun kv => ("variable", kv.1, kv.2.argsOf, []))
+  ++ (c.pars.map fun kv => ("parameter", kv.1, kv.2.argsOf, []))
+  ++ (c.derived.map fun kv => ("derived", kv.1, some kv.2.args, []))
+  ++ (c.rxns.map fun kv => ("reaction", kv.1, some kv.2.rate.args, kv.2.stoich.map fun vc => (vc.1, vc.2.argsOf)))
+
 end Mxl.C11
